@@ -78,22 +78,79 @@ def optInt? (v : V) : Option (Option Int) :=
 
 def errElem : Json := obj [("$err", toJson (1 : Nat))]
 
+/-- Arrays hold their elements unevaluated, so the result of a callback such as `function(x) [x]`
+    or `function(acc, x) acc + [x]` may contain a failing thunk.  Inside `V` such a thunk is stored
+    as this reserved value; it is never produced by the generators. -/
+def errV : V := .objA (.str "$err")
+
+def encT (e : Option V) : V := match e with | some v => v | none => errV
+
+partial def hasErr : V → Bool
+  | .objA (.str "$err") => true
+  | .objA v => hasErr v
+  | .arr xs => xs.any hasErr
+  | _ => false
+
+/-- element of an array value read back as a thunk -/
+def decT (v : V) : Option V := match v with | .objA (.str "$err") => none | _ => some v
+
+/-- one element of an element-wise dump: a failing thunk, or a value with a failing thunk inside
+    (its strict dump fails), is recorded as `$err` -/
+def dumpElem (e : Option V) : Json :=
+  match e with
+  | some v => if hasErr v then errElem else ofV v
+  | none => errElem
+
 def encLL (r : Option (List (Option V))) : Json :=
   match r with
-  | some xs => obj [("ok", .arr (xs.map (fun e => match e with | some v => ofV v | none => errElem)).toArray)]
+  | some xs => obj [("ok", .arr (xs.map dumpElem).toArray)]
+  | none => errJ
+
+/-- element-wise dump of a single value: arrays element by element, anything else strictly -/
+def encLazyV (r : Option V) : Json :=
+  match r with
+  | some (.arr xs) => encLL (some (xs.map decT))
+  | some v => if hasErr v then errJ else okV v
   | none => errJ
 
 /-- strict dump of a lazy result: any failing element fails the whole manifest -/
-def encStrict (r : Option (List (Option V))) : Json := encL (r.bind evalAll)
+def encStrict (r : Option (List (Option V))) : Json :=
+  match r.bind evalAll with
+  | some vs => if vs.any hasErr then errJ else encL (some vs)
+  | none => errJ
 
-def nonForcing1 (n : String) : Bool := n == "true" || n == "const0" || n == "lit"
+def nonForcing1 (n : String) : Bool := n == "true" || n == "const0" || n == "lit" || n == "arr1"
 
-/-- pool function applied to a thunk: the constant functions do not force their argument -/
+/-- pool function applied to a thunk: the constant functions do not force their argument, the
+    array builders store it unevaluated -/
 def fn1L (name : String) (e : Option V) : Option V :=
-  if nonForcing1 name then fn1 name .null else e.bind (fn1 name)
+  if nonForcing1 name then fn1 name .null
+  else if name == "wrap" || name == "dup" then fn1 name (encT e)
+  else e.bind (fn1 name)
 
-def fn2L (name : String) (a : V) (e : Option V) : Option V :=
-  if name == "fst" then some a else e.bind (fn2 name a)
+/-- binary pool function applied to two thunks, in call order -/
+def fn2L (name : String) (a b : Option V) : Option V :=
+  match name with
+  | "pair" => some (.arr [encT a, encT b])
+  | "snoc" => a.bind (fun av => fn2 "snoc" av (encT b))
+  | "cons" => b.bind (fun bv => fn2 "cons" (encT a) bv)
+  | "fst" | "inc1" => a.bind (fun av => fn2 name av .null)
+  | "snd" | "inc2" => b.bind (fun bv => fn2 name .null bv)
+  | "const7" => some (.num 7)
+  | _ => a.bind (fun av => b.bind (fn2 name av))
+
+/-- `builtin_flatmap`, array branch: the callback result classified, the pieces read back as thunks -/
+def piecesL (name : String) (e : Option V) : Option (Option (List (Option V))) :=
+  match fn1L name e with
+  | some (.arr ys) => some (some (ys.map decT))
+  | some .null => some none
+  | _ => none
+
+/-- key function applied to a thunk -/
+def keyL (f : Option String) (e : Option V) : Option V :=
+  match f with
+  | some n => fn1L n e
+  | none => e
 
 def trivialOf (name : String) : Option V := if nonForcing1 name then fn1 name .null else none
 
@@ -183,39 +240,84 @@ def callLazy (fn : String) (a : List Json) (f g : Option String) : Option Json :
       onArr c (fun c xs => both (encNat (Model.count c x)) (encNat (countSpec (fun y => some (eqV y x)) xs)))
         (fun _ => both errJ errJ))
   | "foldl", [c, init] =>
-    (toV init).bind (fun init => f.bind (fun fname =>
-      onArr c (fun c xs => both (enc (Model.foldl (fn2 fname) c init))
-                                (enc ((evalAll xs).bind (foldlSpec (fn2 fname) init))))
-        (fun c => modelOnly (enc (Model.foldl (fn2 fname) c init)))))
+    (toLazy init).bind (fun init => f.bind (fun fname =>
+      onArr c (fun c xs => both (encLazyV (Model.foldl (fn2L fname) c init))
+                                (encLazyV (foldlSpec (fn2L fname) init xs)))
+        (fun c => modelOnly (encLazyV (Model.foldl (fn2L fname) c init)))))
   | "foldr", [c, init] =>
-    (toV init).bind (fun init => f.bind (fun fname =>
-      onArr c (fun c xs => both (enc (Model.foldr (fn2 fname) c init))
-                                (enc ((evalAll xs).bind (foldrSpec (fn2 fname) init))))
-        (fun c => modelOnly (enc (Model.foldr (fn2 fname) c init)))))
+    (toLazy init).bind (fun init => f.bind (fun fname =>
+      onArr c (fun c xs => both (encLazyV (Model.foldr (fn2L fname) c init))
+                                (encLazyV (foldrSpec (fn2L fname) init xs)))
+        (fun c => modelOnly (encLazyV (Model.foldr (fn2L fname) c init)))))
   | "map", [c] =>
     f.bind (fun fname =>
       onArr c (fun c xs => both (encLL (Model.map (fn1L fname) c)) (encLL (some (xs.map (fn1L fname)))))
         (fun c => modelOnly (encLL (Model.map (fn1L fname) c))))
   | "mapWithIndex", [c] =>
     f.bind (fun fname =>
-      onArr c (fun c xs => both (encLL (Model.mapWithIndex (fn2L fname) c))
-          (encLL (some ((xs.zipIdx 0).map (fun p => fn2L fname (.num p.2) p.1)))))
-        (fun c => modelOnly (encLL (Model.mapWithIndex (fn2L fname) c))))
+      onArr c (fun c xs => both (encLL (Model.mapWithIndex (fun i e => fn2L fname (some i) e) c))
+          (encLL (some ((xs.zipIdx 0).map (fun p => fn2L fname (some (.num p.2)) p.1)))))
+        (fun c => modelOnly (encLL (Model.mapWithIndex (fun i e => fn2L fname (some i) e) c))))
   | "filter", [c] =>
     f.bind (fun fname =>
-      onArr c (fun c xs => both (encLL (Model.filter (fn1L fname) c))
+      onArr c (fun c xs => both (encLL (Model.filter (fn1L fname) false c))
                                 (encLL (filterSpec (Model.boolPred (fn1L fname)) xs)))
         (fun _ => both errJ errJ))
   | "filterMap", [c] =>
     f.bind (fun ff => g.bind (fun gg =>
-      onArr c (fun c xs => both (encLL (Model.filterMap (fn1L ff) (fn1L gg) c))
+      onArr c (fun c xs => both (encLL (Model.filterMap (fn1L ff) (fn1L gg) false c))
           (encLL ((filterSpec (Model.boolPred (fn1L ff)) xs).map (fun ys => ys.map (fn1L gg)))))
         (fun _ => both errJ errJ)))
   | "flatMap", [c] =>
     f.bind (fun fname =>
-      onArr c (fun c xs => both (enc (Model.flatMap (fn1 fname) c))
-                                (enc ((flatMapSpec (arrPieces (fn1 fname)) xs).map V.arr)))
-        (fun c => modelOnly (enc (Model.flatMap (fn1 fname) c))))
+      let encF (r : Option Model.FlatRes) : Json :=
+        match r with
+        | some (.arr ys) => encLL (some ys)
+        | some (.str s) => okV (.str s)
+        | none => errJ
+      onArr c (fun c xs => both (encF (Model.flatMap (piecesL fname) (fn1 fname) c))
+                                (encLL (flatMapSpec (piecesL fname) xs)))
+        (fun c => modelOnly (encF (Model.flatMap (piecesL fname) (fn1 fname) c))))
+  | "join", [sep, arr] =>
+    -- array separator: the separator and the joined arrays keep their elements unevaluated
+    let item (j : Json) : Option (Option (Option (List (Option V)))) :=
+      -- outer none: unparsable; `some none`: the item fails or is not an array/null
+      if isErrElem j then some none
+      else match j with
+        | .null => some (some none)
+        | .arr a => (a.toList.mapM toLazy).map (fun xs => some (some xs))
+        | _ => some none
+    match sep, arr with
+    | .arr sp, .arr items =>
+      (sp.toList.mapM toLazy).bind (fun sepL => (items.toList.mapM item).map (fun its =>
+        match evalAll its with
+        | some its' => both (encLL (some (joinM sepL its'))) (encLL (some (joinSpec sepL its')))
+        | none => both errJ errJ))
+    | _, _ => none
+  | "setUnion", [a, b] | "setInter", [a, b] | "setDiff", [a, b] =>
+    match a, b with
+    | .arr xa, .arr xb =>
+      (xa.toList.mapM toLazy).bind (fun la => (xb.toList.mapM toLazy).map (fun lb =>
+        let m := match fn with
+          | "setUnion" => unionM (keyL f) cmpV la lb
+          | "setInter" => interM (keyL f) cmpV la lb
+          | _ => diffM (keyL f) cmpV la lb
+        -- documented definitions: an exhausted side ends the comparisons
+        let s : Option (List (Option V)) :=
+          if la.isEmpty then (match fn with | "setUnion" => some lb | _ => some [])
+          else if lb.isEmpty then (match fn with | "setInter" => some [] | _ => some la)
+          else none
+        match s with
+        | some r => both (encLL m) (encLL (some r))
+        | none => modelOnly (encLL m)))
+    | _, _ => none
+  | "setMember", [x, arr] =>
+    match arr with
+    | .arr xa =>
+      (toLazy x).bind (fun lx => (xa.toList.mapM toLazy).map (fun la =>
+        let m := encB (setMemberM (keyL f) cmpV lx la)
+        if la.isEmpty then both m (encB (some false)) else modelOnly m))
+    | _ => none
   | "sum", [c] =>
     onArr c (fun c xs => both (enc ((Model.sum c).map V.num))
         (enc ((evalAll xs).bind (fun vs => (Spec.nums vs).map (fun ns => V.num ns.sum)))))
@@ -227,7 +329,12 @@ def callLazy (fn : String) (a : List Json) (f g : Option String) : Option Json :
     (onEmptyArg rest).bind (fun onEmpty =>
       (toIdx c).map (fun c =>
         let want : Ordering := if fn == "minArray" then .lt else .gt
-        modelOnly (enc (Model.minMax c f want onEmpty))))
+        let m := enc (Model.minMax c (keyL f) want onEmpty)
+        -- a key function that ignores its argument makes all keys equal: the documented fold keeps
+        -- the first element and looks at no other one
+        match c, f with
+        | .arr (x :: _), some n => if nonForcing1 n && n != "true" then both m (enc x) else modelOnly m
+        | _, _ => modelOnly m))
   | _, _ => none
 
 def call (fn : String) (a : List V) (f g : Option String) : Option Json :=
@@ -296,15 +403,15 @@ def call (fn : String) (a : List V) (f g : Option String) : Option Json :=
     some (both (encL (some (Model.flattenDeep v))) (encL (some (Spec.flattenDeep v))))
   | "foldl", [c, init] =>
     match asIdx c, f with
-    | some (xs, _), some fname => some (both (enc (Model.foldl (fn2 fname) (Idx.ofV c) init))
+    | some (xs, _), some fname => some (both (enc (Model.foldl (fn2L fname) (Idx.ofV c) (some init)))
                                              (enc (Spec.foldl (fn2 fname) init xs)))
-    | _, some fname => some (both (enc (Model.foldl (fn2 fname) (Idx.ofV c) init)) errJ)
+    | _, some fname => some (both (enc (Model.foldl (fn2L fname) (Idx.ofV c) (some init))) errJ)
     | _, _ => some (specOnly errJ)
   | "foldr", [c, init] =>
     match asIdx c, f with
-    | some (xs, _), some fname => some (both (enc (Model.foldr (fn2 fname) (Idx.ofV c) init))
+    | some (xs, _), some fname => some (both (enc (Model.foldr (fn2L fname) (Idx.ofV c) (some init)))
                                              (enc (Spec.foldr (fn2 fname) init xs)))
-    | _, some fname => some (both (enc (Model.foldr (fn2 fname) (Idx.ofV c) init)) errJ)
+    | _, some fname => some (both (enc (Model.foldr (fn2L fname) (Idx.ofV c) (some init))) errJ)
     | _, _ => some (specOnly errJ)
   | "map", [c] =>
     match asIdx c, f with
@@ -314,31 +421,36 @@ def call (fn : String) (a : List V) (f g : Option String) : Option Json :=
     | _, _ => some (specOnly errJ)
   | "mapWithIndex", [c] =>
     match asIdx c, f with
-    | some (xs, _), some fname => some (both (encStrict (Model.mapWithIndex (fn2L fname) (Idx.ofV c)))
+    | some (xs, _), some fname => some (both (encStrict (Model.mapWithIndex (fun i e => fn2L fname (some i) e) (Idx.ofV c)))
                                              (encL (Spec.mapIdx (fn2 fname) 0 xs)))
-    | _, some fname => some (both (encStrict (Model.mapWithIndex (fn2L fname) (Idx.ofV c))) errJ)
+    | _, some fname => some (both (encStrict (Model.mapWithIndex (fun i e => fn2L fname (some i) e) (Idx.ofV c))) errJ)
     | _, _ => some (specOnly errJ)
   | "filter", [v] =>
     match asArr v, f with
-    | some xs, some fname => some (both (encStrict (Model.filter (fn1L fname) (Idx.ofV v)))
+    | some xs, some fname => some (both (encStrict (Model.filter (fn1L fname) true (Idx.ofV v)))
                                         (encL (Spec.filter (fn1 fname) xs)))
-    | none, some fname => some (both (encStrict (Model.filter (fn1L fname) (Idx.ofV v))) errJ)
+    | none, some fname => some (both (encStrict (Model.filter (fn1L fname) true (Idx.ofV v))) errJ)
     | _, _ => some (specOnly errJ)
   | "filterMap", [v] =>
     match asArr v, f, g with
     | some xs, some ff, some gg =>
-      some (both (encStrict (Model.filterMap (fn1L ff) (fn1L gg) (Idx.ofV v)))
+      some (both (encStrict (Model.filterMap (fn1L ff) (fn1L gg) true (Idx.ofV v)))
                  (encL ((Spec.filter (fn1 ff) xs).bind (Spec.mapM' (fn1 gg)))))
     | none, some ff, some gg =>
-      some (both (encStrict (Model.filterMap (fn1L ff) (fn1L gg) (Idx.ofV v))) errJ)
+      some (both (encStrict (Model.filterMap (fn1L ff) (fn1L gg) true (Idx.ofV v))) errJ)
     | _, _, _ => some (specOnly errJ)
   | "flatMap", [c] =>
+    let encF (r : Option Model.FlatRes) : Json :=
+      match r with
+      | some (.arr ys) => encStrict (some ys)
+      | some (.str s) => okV (.str s)
+      | none => errJ
     match c, f with
-    | .arr xs, some fname => some (both (enc (Model.flatMap (fn1 fname) (Idx.ofV c)))
+    | .arr xs, some fname => some (both (encF (Model.flatMap (piecesL fname) (fn1 fname) (Idx.ofV c)))
                                         (encL (Spec.flatMapArr (fn1 fname) xs)))
-    | .str s, some fname => some (both (enc (Model.flatMap (fn1 fname) (Idx.ofV c)))
+    | .str s, some fname => some (both (encF (Model.flatMap (piecesL fname) (fn1 fname) (Idx.ofV c)))
                                        (enc ((Spec.flatMapStr (fn1 fname) (chars s)).map V.str)))
-    | _, some fname => some (both (enc (Model.flatMap (fn1 fname) (Idx.ofV c))) errJ)
+    | _, some fname => some (both (encF (Model.flatMap (piecesL fname) (fn1 fname) (Idx.ofV c))) errJ)
     | _, _ => some (specOnly errJ)
   | "join", [sep, v] =>
     match sep, asArr v with
@@ -384,7 +496,7 @@ def call (fn : String) (a : List V) (f g : Option String) : Option Json :=
     | some [], [onEmpty] => some (both (okV onEmpty) (okV onEmpty))
     | some xs, _ =>
       let onE : Option (Option V) := match rest with | [t] => some (some t) | _ => none
-      let m := enc (Model.minMax (Idx.ofV v) f want onE)
+      let m := enc (Model.minMax (Idx.ofV v) (keyL f) want onE)
       some (if keysFlat xs f then both m (enc (Spec.top1 xs f want)) else modelOnly m)
     | none, _ => some (both errJ errJ)
   | "range", [x, y] =>
